@@ -26,7 +26,7 @@ ASSUMPTIONS = [
     "pair differs in exactly one literal and that difference is a bool-vs-number lookalike",
 ]
 MUTATIONS = [
-    "kw_changed", "kw_added", "kw_removed", "literal_lookalike", "prop_required", "prop_source", "prop_key",
+    "base_changed", "kw_changed", "kw_added", "kw_removed", "literal_lookalike", "prop_required", "prop_source", "prop_key",
     "class_swapped", "sub_replaced", "elements_reordered", "prop_removed",
 ]
 REQUIRED_COUNTERS = ["pairs.rebuild", "pairs.rebuild_one_used", "pairs.root_is_subclass", "pairs.mutant", "equal.true", "equal.false", "equal_pairs.values_compared",
@@ -90,11 +90,34 @@ def is_bool_number_swap(left, right):
     return False
 
 
+SCALAR_KW_FOR_BASE = {
+    "minProperties": lambda rng: rng.choice([1, 2, 3]), "maxProperties": lambda rng: rng.choice([0, 1, 2]),
+    "required": lambda rng: rng.sample(["a", "b", "zz"], k=rng.randint(1, 2)),
+    "enum": lambda rng: [{}, {"a": 1}], "const": lambda rng: rng.choice([{}, {"a": 1}]),
+}
+
+
 def mutate_spec(rng, spec):
     """One-point mutant of a spec -> (mutant, kind, extra values aimed at the point) or None."""
     from vlib.checks.c13 import SCALAR_KW, allowed_scalar, small_spec  # pylint: disable=import-outside-toplevel
 
     mutant = copy.deepcopy(spec)
+    if mutant.get("t") == "Object" and isinstance(mutant.get("base"), dict) and mutant["base"].get("t") == "Object" \
+            and rng.random() < 0.6:
+        # same class body, differently configured base class
+        base = mutant["base"]
+        kw = base.setdefault("kw", {})
+        key = rng.choice(["minProperties", "maxProperties", "required", "additionalProperties", "enum", "const"])
+        old_val = kw.get(key)
+        if key == "additionalProperties":
+            kw[key] = not bool(old_val) if isinstance(old_val, bool) or old_val is None else False
+        elif key in kw and rng.random() < 0.4:
+            del kw[key]
+        else:
+            kw[key] = SCALAR_KW_FOR_BASE[key](rng)
+        if canon(mutant) != canon(spec):
+            return mutant, "base_changed", [{}, {"a": 1}, {"a": 1, "b": 2, "zz": 3}, {"zz": 1}]
+        mutant = copy.deepcopy(spec)
     nodes = walk(mutant)
     rng.shuffle(nodes)
     for _path, node in nodes[:10]:
